@@ -74,6 +74,30 @@ CHECKS.update({
         rule="all histories up to the depth bound over inbound events that contain no acceptable Logon for the acceptor {refused/damaged Logons, Heartbeat, TestRequest, ResendRequest over six ranges, Logout, application/unknown types, three heartbeat periods of silence}, with a fresh store and with a store already holding the messages of an earlier session; oracle: every outbound message before the first successful logon has MsgType A, 5 or 3.",
         assumptions=SESS_ASSUME,
     ),
+    "C10": dict(
+        engine="sess", level="model_checking", args=[],
+        deadline=dict(quick=110, thorough=1500),
+        rule="both roles; every outbound history pattern of up to N messages after the logon message (each either a Heartbeat reply or an application message); then a ResendRequest for every (b,e) in [0,n+2]^2, and for short histories every ordered pair of two such requests; plus every (stored incoming counter in 0..4, Logon MsgSeqNum in 1..6) for gap detection. Oracle: retransmissions are byte-identical recorded first transmissions, inside the range, ascending, complete when 1<=b<=e<=n or e=0; ResendRequest at logon iff a gap exists and BeginSeqNo = first missing number. States = distinct (role, pattern, requests) configurations reached; transitions = scheduler steps executed.",
+        assumptions=SESS_ASSUME,
+    ),
+    "C14": dict(
+        engine="sess", level="model_checking", args=[],
+        deadline=dict(quick=110, thorough=1500),
+        rule="after a deterministic logon, all histories up to the depth bound over {TestRequest with each of 15 TestReqIDs (containing '=', tag-like text, space, binary bytes, 300 bytes), Heartbeat, application message, ResendRequest, local Send, three back-to-back deliveries queued before the dispatcher runs}, both roles; oracle: exactly one Heartbeat per TestRequest, TestReqID byte-identical, replies in request order and before any output caused by a later message.",
+        assumptions=SESS_ASSUME,
+    ),
+    "C15": dict(
+        engine="sess", level="model_checking", args=[],
+        deadline=dict(quick=110, thorough=1500),
+        rule="both roles x close timeout {0, 1 s, 10 s} x every traffic prefix of 0..2 events over {TestRequest, application message, local Send} x ending {peer Logout (twice), local Logout then the peer's answer, local Stop with the answer arriving never / at half the timeout / exactly at it / 1 s after it}; plus local Logout with the answer delayed by 0.5..3.5 s while the timers of a 1 s / 2 s heartbeat interval run. Oracle: one Logout per peer Logout and no second one; own Logout not answered again, EventLogout raised once; Stop sends a Logout and the session context is cancelled exactly at the instant the answer is processed when that is before the deadline, else exactly at the deadline. States = distinct cases; transitions = scheduler steps.",
+        assumptions=SESS_ASSUME,
+    ),
+    "C19": dict(
+        engine="sess", level="model_checking", args=[],
+        deadline=dict(quick=110, thorough=1500),
+        rule="both roles x every registration interleaving of up to A all-types and T type-specific outgoing handlers x every accept/refuse vector x store failing on the k-th save (k = never,1,2,3) x message type {Heartbeat, MarketDataRequest} x 3 sends; inbound: every registration interleaving of all-types / type-specific incoming handlers. Oracle: call log = [save, all-types in registration order, type-specific in registration order] cut at the first refusal; refusal or save failure => Send returns an error and nothing is transmitted; the bytes every handler sees, the stored bytes and the transmitted bytes are identical and stored under the transmitted MsgSeqNum.",
+        assumptions=SESS_ASSUME + ["outgoing handlers yield to the scheduler inside the callback (arbitrary delay in application code)"],
+    ),
     "C16": dict(
         engine="sess", level="model_checking", args=[],
         deadline=dict(quick=110, thorough=1500),
@@ -85,7 +109,7 @@ CHECKS.update({
 ENGINES = [
     {"name": "codecmc", "path": "harness/codec", "serves_properties": ["C01", "C02", "C03", "C11", "C17", "C18"],
      "kind_free_text": "E1: bounded-exhaustive enumeration of the codec input space (templates x populations x values x damage x byte strings) on the real fix / fix/encoding packages against an independent reference codec"},
-    {"name": "vsched", "path": "engine/vsched + engine/rewrite + harness/sess", "serves_properties": ["C06", "C07", "C16"],
+    {"name": "vsched", "path": "engine/vsched + engine/rewrite + harness/sess", "serves_properties": ["C06", "C07", "C10", "C14", "C15", "C16", "C19"],
      "kind_free_text": "E2: the real transport/session code, source-rewritten so that goroutines, channels, select, sync, context, time and errgroup run on a controlled scheduler with virtual time; stateless deviation-bounded DFS over schedules and exhaustive enumeration of event histories"},
 ]
 
@@ -104,12 +128,20 @@ LEVEL_TEXT.update({
     "C06": "Explicit-state exploration of the real session: every inbound/local event history up to a depth bound is executed on fresh real objects under a controlled scheduler and checked step by step against a reference logon automaton. Right level because the property is a protocol state-machine invariant over histories.",
     "C07": "Explicit-state exploration of the real session over all pre-logon inbound histories up to a depth bound, with an empty and a pre-populated shared store.",
     "C16": "Explicit-state exploration of the real session over histories mixing valid and damaged administrative messages in every session state.",
+    "C15": "Exhaustive enumeration of logout/stop scenarios (role x close timeout x traffic prefix x ending x answer timing) on the real session under strict virtual time, so that cancellation instants are compared exactly.",
+    "C19": "Exhaustive enumeration of handler registration orders, accept/refuse vectors and store-failure positions on the real handler+session, with an instrumented store and call log as oracle.",
+    "C10": "Exhaustive enumeration of (outbound history, resend range[, second range]) and of (stored counter, logon sequence number) pairs on the real session and store, every case executed to quiescence under the controlled scheduler and compared with the recorded first transmissions.",
+    "C14": "Explicit-state exploration of the real logged-on session over all inbound histories up to a depth bound with a collision-forcing TestReqID alphabet, including queued back-to-back deliveries.",
 })
 
 TECHNIQUE = {
     "C06": "explicit-state model checking of the implementation: exhaustive event-history enumeration (depth-bounded) under a controlled scheduler with a reference automaton as oracle",
     "C07": "explicit-state model checking of the implementation: exhaustive pre-logon history enumeration (depth-bounded) under a controlled scheduler",
     "C16": "explicit-state model checking of the implementation: exhaustive history enumeration over valid + damaged admin messages in every state",
+    "C15": "explicit-state model checking of the implementation under virtual time: exhaustive enumeration of logout/stop scenarios and answer timings",
+    "C19": "explicit-state model checking of the implementation: exhaustive enumeration of handler configurations and injected store faults",
+    "C10": "explicit-state model checking of the implementation: exhaustive enumeration of outbound histories x resend ranges under a controlled scheduler, reference = recorded first transmissions",
+    "C14": "explicit-state model checking of the implementation: exhaustive logged-on history enumeration (depth-bounded) with TestReqID alphabet",
     "C01": "bounded-exhaustive input enumeration on the real code vs reference oracle (small-scope model checking of a sequential function)",
     "C17": "bounded-exhaustive input enumeration on the real code vs reference field-list model",
     "C02": "bounded-exhaustive input enumeration on the real code, differential round-trip oracle",
